@@ -20,7 +20,8 @@ LEVEL_ASSUMPTIONS = [
     "feasibility oracle vlib/oracles/packing.py (self-tested on the "
     "Liu-Teng example)", "icontract postcondition on "
     "ImprovedBottomLeftEncoding{1,2}.decode evaluated on every call"]
-REQUIRED = {"concurrent_decodes": 20000, "suite_runs": 1, "contract_decode_calls": 1000, "contract_decode_evaluated": 500, "forced_rotations": 20,
+REQUIRED = {"instances_edited_and_rebuilt_under_one_name": 100,
+            "concurrent_decodes": 20000, "suite_runs": 1, "contract_decode_calls": 1000, "contract_decode_evaluated": 500, "forced_rotations": 20,
             "second_bin": 100, "dtype[int8]": 1, "dtype[int16]": 1,
             "dtype[int32]": 1, "dtype[int64]": 1}
 
@@ -190,10 +191,17 @@ def threads_shard(ctx, args):
         sys.setswitchinterval(old_int)
 
 
-def one_instance(ctx, desc, exhaustive_ok=True):
+LAST_ID: list = [None]
+
+
+def one_instance(ctx, desc, exhaustive_ok=True, inst=None, light=False):
     mon = _monitor(ctx)
     rng = ctx.rng
-    inst = wb.make_real(desc)
+    if inst is None:
+        inst = wb.make_real(desc)
+    if LAST_ID[0] == (id(inst), desc["name"]):
+        ctx.count("rebuilt_instance_got_the_address_of_the_collected_one")
+    LAST_ID[0] = (id(inst), desc["name"])
     ctx.count(f"inst_cls[{desc['cls']}]")
     ctx.count(f"dtype[{inst.dtype}]")
     why = dtype_ok(inst, desc)
@@ -217,7 +225,8 @@ def one_instance(ctx, desc, exhaustive_ok=True):
         ctx.mark_exhaustive("all signed permutations of every generated "
                             "instance with <= 4 items")
     else:
-        kinds = list(wb.PERM_KINDS) + ["random"] * 5
+        kinds = ["random", "sorted", "random"] if light else (
+            list(wb.PERM_KINDS) + ["random"] * 5)
         for kind in kinds:
             perm = wb.gen_perm(rng, desc, kind)
             for e in (1, 2):
@@ -236,7 +245,7 @@ def run_shard(ctx, args):
 def _run_shard(ctx, args):
     rng = ctx.rng
     classes = ["tiny", "itembin", "forcedrot", "dtype", "general", "unit",
-               "dtype", "forcedrot", "general", "shipped"]
+               "dtype", "forcedrot", "general", "shipped", "count"]
     names = None
     for it in range(args["n"]):
         cls = classes[it % len(classes)]
@@ -248,6 +257,27 @@ def _run_shard(ctx, args):
             desc = wb.gen_instance(rng, cls)
         try:
             one_instance(ctx, desc)
+            if it % 3 == 0 and cls != "shipped":
+                # edit-and-rebuild: the first instance is gone (collected),
+                # the user builds "her" instance again under the same name
+                # with some item sizes edited - same number of item types,
+                # usually the same storage type, often the same address
+                import gc
+
+                from moptipyapps.binpacking2d.instance import Instance
+                d2 = dict(desc)
+                d2["items"] = [list(r) for r in desc["items"]]
+                for _rep in range(5):       # several edit / rebuild cycles
+                    gc.collect()
+                    r = d2["items"][int(rng.integers(len(d2["items"])))]
+                    if rng.integers(2) and r[0] > 1:
+                        r[0] -= 1
+                    elif r[1] > 1:
+                        r[1] -= 1
+                    ctx.count("instances_edited_and_rebuilt_under_one_name")
+                    one_instance(ctx, d2, exhaustive_ok=False, inst=Instance(
+                        d2["name"], d2["W"], d2["H"],
+                        [list(q) for q in d2["items"]]), light=True)
         except ValueError as e:
             if "does not fit" in str(e) or "must be in" in str(e):
                 ctx.count("generator_rejected_by_ctor")
